@@ -262,6 +262,54 @@ def _zero(spec, model):
     return {'confirmed': False, 'error': 'case not found'}
 
 
+def point_generation_cases():
+    """the points a model isotherm hands out -- iso.pressure(n) and iso.loading(n), which plotting and from_modelisotherm use -- are
+    pairs on the bare model's curve, in the isotherm's units and in requested ones, for loading-explicit and pressure-explicit models"""
+    import pygaps
+    import warnings
+    from pgv.checks.models_common import DOMAIN
+    pygaps.logger.disabled = True
+    meta = dict(material='pgv_c10', adsorbate='nitrogen', temperature=77.355, pressure_mode='absolute', pressure_unit='bar', loading_basis='molar',
+                loading_unit='mmol', material_basis='mass', material_unit='g', temperature_unit='K')
+    for name in sorted(DOMAIN):
+        m = _model(name, None, {})
+        probs = []
+        with warnings.catch_warnings():
+            warnings.simplefilter('ignore')
+            try:
+                if m.calculates == 'loading':
+                    m.pressure_range = (0.05, 0.6)
+                    m.loading_range = tuple(float(numpy.asarray(m.loading(x)).ravel()[0]) for x in m.pressure_range)
+                else:
+                    m.loading_range = (0.05, 0.6)
+                    m.pressure_range = tuple(float(numpy.asarray(m.pressure(x)).ravel()[0]) for x in m.loading_range)
+                iso = pygaps.ModelIsotherm(model=m, **meta)
+                for kw, fp, fl in (({}, 1.0, 1.0), ({'pressure_unit': 'Pa'}, 1e5, 1.0), ({'loading_unit': 'mol'}, 1.0, 1e-3)):
+                    pk = {k: v for k, v in kw.items() if k.startswith('pressure')}
+                    lk = {k: v for k, v in kw.items() if k.startswith('loading')}
+                    ps = numpy.asarray(iso.pressure(7, **pk), dtype=float) / fp
+                    ls = numpy.asarray(iso.loading(7, **lk), dtype=float) / fl
+                    if m.calculates == 'loading':
+                        want = numpy.asarray([numpy.asarray(m.loading(x)).ravel()[0] for x in ps], dtype=float)
+                        if ps.shape != ls.shape or not numpy.allclose(ls, want, rtol=1e-7):
+                            probs.append(f"{kw or 'own units'}: loading(n) {ls[:4]} vs model.loading(pressure(n)) {want[:4]}")
+                    else:
+                        want = numpy.asarray([numpy.asarray(m.pressure(x)).ravel()[0] for x in ls], dtype=float)
+                        if ps.shape != ls.shape or not numpy.allclose(ps, want, rtol=1e-7):
+                            probs.append(f"{kw or 'own units'}: pressure(n) {ps[:4]} vs model.pressure(loading(n)) {want[:4]}")
+            except Exception as exc:
+                probs.append(f"{type(exc).__name__}: {exc}"[:160])
+        yield {'name': f"generated_points_on_model_curve|{name}", 'ok': not probs, 'detail': '; '.join(probs[:2])}
+
+
+@replayer('c10.points')
+def _points(spec, model):
+    for r in point_generation_cases():
+        if r['name'] == spec['name']:
+            return {'confirmed': not r['ok'], 'observed': r['detail'], 'expected': 'pairs (pressure(n)[i], loading(n)[i]) satisfy the model equation'}
+    return {'confirmed': False, 'error': 'case not found'}
+
+
 @replayer('c10.numinv_history')
 def _numinv_history(spec, model):
     bad = [r for r in order_cases() if not r['ok'] and r['name'].endswith('|' + spec['model'])]
